@@ -118,6 +118,12 @@ T('c06-twin-isclose-explicit-tol', 'C06', 'explicit tolerances that cover the ro
   (AS, "if not math.isclose(grad_workers, round(grad_workers)):", "if not math.isclose(grad_workers, round(grad_workers), rel_tol=1e-12, abs_tol=0.0):"))
 T('c06-twin-isclose-abs-tol-wide', 'C06', 'absolute tolerance 1e-6 with rel_tol=0',
   (AS, "if not math.isclose(grad_workers, round(grad_workers)):", "if not math.isclose(grad_workers, round(grad_workers), rel_tol=0.0, abs_tol=1e-6):"))
+M('c01-skip-inverse-when-present', 'C01', 'MEMO-KEY', 'compute_a_inv returns early while an inverse exists and a generation stamp matches; damping is not compared',
+  (LI, "            raise RuntimeError('Cannot invert A before A has been computed')\n\n        d = torch.diag(", "            raise RuntimeError('Cannot invert A before A has been computed')\n        if self.a_inv is not None and getattr(self, '_a_src', None) is self.a_factor:\n            return\n        self._a_src = self.a_factor\n\n        d = torch.diag("))
+T('c01-twin-skip-inverse-keyed-by-damping', 'C01', 'the same early return, keyed by the factor identity and by the damping it was computed with',
+  (LI, "            raise RuntimeError('Cannot invert A before A has been computed')\n\n        d = torch.diag(", "            raise RuntimeError('Cannot invert A before A has been computed')\n        if self.a_inv is not None and getattr(self, '_a_src', None) is self.a_factor and getattr(self, '_a_damping', None) == damping:\n            return\n        self._a_src = self.a_factor\n        self._a_damping = damping\n\n        d = torch.diag("))
+M('c15-pointwise-fast-path-above-pad', 'C15', 'DOM-PAD', '1x1 fast path returns above the padding step',
+  (LM, "        stride = cast(List[int], self.module.stride)\n        if padding[0] + padding[1] > 0:", "        stride = cast(List[int], self.module.stride)\n        if kernel_size[0] == 1 and kernel_size[1] == 1:\n            return x[:, :, :: stride[0], :: stride[1]].permute(0, 2, 3, 1).contiguous()\n        if padding[0] + padding[1] > 0:"))
 # ---------------------------------------------------------------- C05
 M('c05-gate-plus-one', 'C05', 'AFF-GATE', '(steps+1) % inv_update_steps',
   (BP, "        if self.steps % self.inv_update_steps == 0:", "        if (self.steps + 1) % self.inv_update_steps == 0:"))
